@@ -8,7 +8,7 @@ EXTENDS Relations
 
 \* ---- bounded universe with optional attributes and capsules
 Names == {"a", "b"}
-Leaf7 == {TBool, TNum, TStr, TDyn, TCap("c1"), TCap("c2")}
+Leaf7 == {TBool, TNum, TStr, TDyn, TCap("c1"), TCap("c2"), TCap("c1x")}     \* c1x: same name and native type as c1, created separately
 
 SortedSeqOf(o) == IF o = {} THEN <<>> ELSE IF o = {"a"} THEN <<"a">> ELSE IF o = {"b"} THEN <<"b">> ELSE <<"a", "b">>
 ObjVariants(S) == {TObjOpt(as, SortedSeqOf(o)) : as \in RecsOver(Names, S), o \in SUBSET Names} 
@@ -24,7 +24,10 @@ U1 == U0 \cup Wrap1(U0)
 Wrap2(S) == {TList(e) : e \in S} \cup {TSet(e) : e \in S} \cup {TMap(e) : e \in S}
               \cup {TTup(<<e>>) : e \in S} \cup {TTup(<<TStr, e>>) : e \in S}
               \cup {TObj([a |-> e]) : e \in S} \cup {TObjOpt([a |-> e, b |-> TNum], <<"b">>) : e \in S}
-U2 == U1 \cup Wrap2(U1 \ U0)
+\* selected depth-3 types: optional attributes reachable only through two further constructors
+Inner3 == {TObjOpt([a |-> TStr, b |-> TNum], <<"a">>), TObjOpt([a |-> TStr], <<"a">>), TObj([a |-> TStr])}
+U3 == Wrap2(Wrap2(Inner3))
+U2 == U1 \cup Wrap2(U1 \ U0) \cup U3
 
 \* ---- contract rules.  T(i) is the abstract type of definition i.
 RuleNamesC07 == {"Echo", "HasDynIff", "EqRefl", "StripIs", "StripIdem", "JsonRoundTrip", "JsonNoPanic",
